@@ -568,6 +568,14 @@ func genFault(t *rapid.T, kind string, s Setup) *world.Fault {
 }
 
 // timeoutFinding: findings that rest on a watchdog (stream did not close, world not quiescent).
+// reproducibleOnly: every finding of the fault / crash enumerations is run once more and counts only
+// if it shows again with the same key. Their cases run dozens of real goroutines against real
+// etcd; on a saturated machine a compensating step can fail on its own (a plugin call running
+// into its deadline) or a straggler of the previous round can act late, which looks like a lasting
+// effect once and never again. Genuine schedule-dependent defects (e.g. the remap-before-rollback
+// one, 2ffb3eb) showed in several shards and survive this; a one-off is counted as inconclusive.
+func reproducibleOnly(*vt.Finding) bool { return true }
+
 func timeoutFinding(f *vt.Finding) bool {
 	return strings.Contains(f.Key, "stream-not-closed") || strings.Contains(f.Key, "not-quiescent")
 }
